@@ -103,13 +103,32 @@ def emitOptEntries (os : List OptEntry) : Enc → ERes Unit :=
   seqAll (os.map fun o =>
     seqAll [fun e => e.emitU16 o.code, fun e => e.emitU16 (optValLen o.val), emitOptVal o.val])
 
+/-- `RecordTypeSet::emit` for a set without `original_encoding`: the `BTreeMap<u8, Vec<u8>>` of window →
+bitmap (bitmap length = index of the highest type's octet + 1, bits OR-ed in), windows in increasing order -/
+def freshWindows (types : List Nat) : List (Nat × Bytes) :=
+  (List.range 256).filterMap fun w =>
+    let lows := (types.filter fun t => t / 256 % 256 = w).map (· % 256)
+    if lows.isEmpty then none
+    else
+      let n := lows.foldl (fun m l => max m (l / 8 + 1)) 0
+      some (w, (List.range n).map fun i =>
+        ((List.range 8).filter fun j => lows.contains (i * 8 + j)).foldl (fun acc j => acc + 2 ^ (7 - j)) 0)
+
+/-- `impl BinEncodable for RecordTypeSet`: the original encoding verbatim when there is one -/
+def emitTypeSet (ts : TypeSet) : Enc → ERes Unit :=
+  match ts.orig with
+  | some bs => fun e => e.emitSlice bs
+  | none =>
+    seqAll ((freshWindows ts.types).map fun wb =>
+      seqAll ([fun e => e.emitU8 wb.1, fun e => e.emitU8 (wb.2.length % 256)] ++ wb.2.map fun b => fun e => e.emitU8 b))
+
 /-- has `RData::emit` a model for this variant? -/
 def RData.emitModelled : RData → Bool
   | .a _ | .aaaa _ | .name _ | .mx _ _ | .soa _ _ _ _ _ _ _ | .txt _ | .srv _ _ _ _ | .hinfo _ _
   | .null _ | .unknown _ _ | .opt _ | .update0 _ | .zero | .tsig _ _ _ _ _ _ _
   | .ds _ _ _ _ | .dnskey _ _ _ _ | .tlsa _ _ _ _ | .sshfp _ _ _ | .openpgpkey _ | .cert _ _ _ _
   | .nsec3param _ _ _ | .caa _ _ _ _ | .key _ _ _ _ | .naptr _ _ _ _ _ _
-  | .sig _ _ _ _ _ _ _ _ _ => true
+  | .sig _ _ _ _ _ _ _ _ _ | .nsec _ _ | .nsec3 _ _ _ _ _ _ | .csync _ _ _ => true
   | _ => false
 
 /-- `impl BinEncodable for RData` for a record of type `t` (the type selects the
@@ -184,6 +203,15 @@ def emitRData (t : Nat) : RData → Enc → ERes Unit
                           fun e2 => e2.emitU32 ottl, fun e2 => e2.emitU32 exp, fun e2 => e2.emitU32 inc,
                           fun e2 => e2.emitU16 tag, fun e2 => Name.emit e2 signer]),
                fun e1 => e1.emitSlice sg])
+  -- the type-bitmap family: `RecordTypeSet::emit` writes the original encoding back
+  | .nsec next ts =>                                         -- RFC 6840 5.1: never compressed, case kept
+    fun e => e.withRdataBehavior .other (seqAll [fun e1 => Name.emit e1 next, emitTypeSet ts])
+  | .nsec3 optOut iter salt hash _ ts =>                      -- hash algorithm 1; `len() as u8` twice
+    seqAll [fun e => e.emitU8 1, fun e => e.emitU8 (if optOut then 1 else 0), fun e => e.emitU16 iter,
+            fun e => e.emitU8 (salt.length % 256), fun e => e.emitSlice salt,
+            fun e => e.emitU8 (hash.length % 256), fun e => e.emitSlice hash, emitTypeSet ts]
+  | .csync serial flags ts =>                                 -- `flags()` reassembles the decoded word
+    seqAll [fun e => e.emitU32 serial, fun e => e.emitU16 flags, emitTypeSet ts]
   | _ => fun _ => .panic "unmodelled-rdata-emit"
 
 /-! ## record -/
